@@ -152,7 +152,26 @@ def make_env(ns, uni, params, memo, defs, result_holder):
             if hasattr(o, attr) and getattr(o, attr) != getattr(memo.get(id(o), o), attr, None):
                 return False
         return True
+    def ghost_int(name, obj):
+        # concrete witness for ghost rank functions: depth in the dependency graph (a cycle gives no valid rank)
+        if name == "rank":
+            seen = {}
+
+            def depth(t, stack):
+                if id(t) in seen:
+                    return seen[id(t)]
+                if id(t) in stack:
+                    return 10 ** 6
+                stack = stack | {id(t)}
+                d = 0
+                for p, _ in getattr(t, "input_task_list", []):
+                    d = max(d, depth(p, stack) + 1)
+                seen[id(t)] = d
+                return d
+            return depth(obj, frozenset())
+        return 0
     env.update({
+        "ghost_int": ghost_int,
         "__tw": tw, "forall": forall, "exists": exists,
         "forall_int": lambda lo, hi, f: all(f(k) for k in range(lo, hi)),
         "exists_int": lambda lo, hi, f: any(f(k) for k in range(lo, hi)),
